@@ -1,4 +1,4 @@
-import CalicoVerif.Proofs.C02Hist
+import CalicoVerif.Proofs.C02Routes
 /-!
 C02 — Felix's output stream never references something the dataplane lacks.
 
@@ -48,6 +48,17 @@ theorem insync_not_before (evs : List AcgEvent) (a : Acg) (ms : List Msg)
     (hr : acgRun {} evs = some (a, ms)) (hm : Msg.inSync ∈ ms) : evs.any isInSyncStatus = true := by
   have := (acg_run (a := {}) (by simp [AcgInv]) hr).2 hm
   simpa using this
+
+/-- (i) `flush_refs_closed`, route → VTEP part, with the hypothesis that makes it true: in any
+configuration reachable by a protocol-respecting history (`Inv s u d`, see `hist_ok`), if the declared
+and the current dataplane state are route-closed and the flush does not re-point (update in place) a
+route away from a VTEP that it also removes (`hnr`: every route the dataplane has that needs a VTEP
+pending removal is itself pending removal), then after EVERY SINGLE message of the flush every route's
+VTEP is present.  Without `hnr` the statement is false: `route_vtep_not_closed`. -/
+theorem flush_routes_closed_partial {s : State} {u d : DP} (hi : Inv s u d) (hu : u.closedRoutes) (hd : d.closedRoutes)
+    (hnr : ∀ dst r n, d.route dst = some r → r.vtep = some n → n ∈ s.vtep.del → dst ∈ s.route.del) :
+    AfterEach DP.closedRoutes d s.flush.2 :=
+  flush_closed_routes hi hu hd hnr
 
 /-! ### the route → VTEP part of (i) is FALSE of the current code -/
 
